@@ -68,9 +68,17 @@ func loadOrig() *pipe.GenParts {
 
 // Build runs the pipeline up to EmitLexer and extracts the mode tables.
 func Build(ws *pipe.Workspace, s *lexref.Spec, parserText string) *Built {
+	return BuildText(ws, map[string]string{"g.lox": LoxText(s, parserText)}, s)
+}
+
+// BuildText is Build for a specification given as text (real-world .lox
+// files) together with its translation s (see internal/fromast). Token
+// constants are taken from the grammar object lox built, because the textual
+// declaration order of such files is not what Spec.Tokens() assumes.
+func BuildText(ws *pipe.Workspace, loxFiles map[string]string, s *lexref.Spec) *Built {
 	b := &Built{Spec: s}
 	b.Res = ws.RunLexer(&pipe.Spec{
-		Lox: map[string]string{"g.lox": LoxText(s, parserText)},
+		Lox: loxFiles,
 		Go:  map[string]string{"user.go": userGo},
 	})
 	r := b.Res
@@ -123,6 +131,11 @@ func Build(ws *pipe.Workspace, s *lexref.Spec, parserText string) *Built {
 	if b.C.Err != "" {
 		b.Status, b.Problem = Broken, "reference could not compile an accepted spec: "+b.C.Err
 		return b
+	}
+	if b.Res.V != nil && b.Res.V.Grammar != nil {
+		for _, t := range b.Res.V.Grammar.Terminals {
+			b.C.TokIndex[t.Name] = t.Index
+		}
 	}
 	if nm != len(s.Modes) {
 		b.Status, b.Problem = Broken, fmt.Sprintf("%d mode tables emitted, specification has %d modes", nm, len(s.Modes))
@@ -265,7 +278,12 @@ func (m *RefM) Push(atom int) Event {
 			return Event{K: EvConsume}
 		}
 	}
-	w := m.C.Winner(m.St)
+	// A rule only matches a non-empty run: an empty match would not advance
+	// the input (the runtime refuses it; see the D9 fix).
+	w := -1
+	if !m.Empty {
+		w = m.C.Winner(m.St)
+	}
 	if w < 0 {
 		if m.Empty && !m.Accum && atom < 0 {
 			// a clean end of input: no run in progress and no fragment text
